@@ -12,6 +12,7 @@ package symgo
 
 import (
 	"go/token"
+	"go/types"
 	"path/filepath"
 	"strconv"
 
@@ -68,6 +69,9 @@ func init() {
 		// C01.codec: the hash-index builder/reader behind the value codec (C04 decides the index itself)
 		"(*" + repo + "compactindexsized.Builder).Insert": "c01Model_BuilderInsert",
 		"(*" + repo + "compactindexsized.DB).Lookup":      "c01Model_DBLookup",
+		// C01.read: the server's object cache
+		"(*github.com/allegro/bigcache/v3.BigCache).Get": "c01Model_bigcacheGet",
+		"(*github.com/allegro/bigcache/v3.BigCache).Set": "c01Model_bigcacheSet",
 		// CAR header CBOR codec (reflection-driven refmt): cut in C01.section / C01.e2e
 		"github.com/ipfs/go-ipld-cbor.DecodeInto": "c01Model_cborDecodeInto",
 		"github.com/ipld/go-car.WriteHeader":      "c01Model_carWriteHeader",
@@ -123,6 +127,14 @@ func init() {
 			stub("time.Duration.Truncate (model: identity; logging only)")
 			return args[0]
 		}
+	}
+	e["(github.com/gagliardetto/solana-go.Signature).IsZero"] = func(fr *frame, args []value) value {
+		stub("solana.Signature.IsZero (model: all 64 bytes are zero)")
+		acc := value(true)
+		for _, b := range args[0].(array) {
+			acc = andV(acc, equalsV(types.Typ[types.Uint8], b, uint8(0)))
+		}
+		return acc
 	}
 	if e["path/filepath.Join"] == nil {
 		e["path/filepath.Join"] = func(fr *frame, args []value) value {
